@@ -110,6 +110,9 @@ def gen_cases(tier, verif_seed):
             'dup': rng.random() < .5,
             'variant': rng.randint(0, 3),
             'chunked': rng.random() < .5,
+            # the same call once more on the same instance: what listeners
+            # see is a function of the call, not of what happened before
+            'again': Streams(seed)['again'].random() < .3,
         }
 
 
@@ -265,9 +268,65 @@ def run_case(case):
             svc.event_manager.add_listener(raising_event, r)
 
     info = {}
+    server = wsgi = None
     if case['route'] == 'wsgi':
         wsgi = WsgiApplication(app, chunked=case['chunked'])
         reg(wsgi.event_manager, 'wsgi', WSGI_EVENTS)
+    else:
+        server = make_server(app)
+    r = _call_and_judge(case, tr, uni, req, mname, wsgi, server, out_prot)
+    if case.get('again'):
+        n0 = len(tr.ev)
+        first = dict(r['summary'])
+        r2 = _call_and_judge(case, tr, uni, req, mname, wsgi, server,
+                             out_prot, start=n0)
+        strip = lambda evs: [list(e[1:]) for e in evs]
+        t1, t2 = strip(tr.ev[:n0]), strip(tr.ev[n0:])
+        r['fired']['same_call_again'] = 1
+        r['steps'] = len(tr.ev)
+        r['digest'] = digest([r['digest'], r2['digest']])
+        tag = 'stage=%s|route=%s|out=%s' % (case['stage'], case['route'],
+                                            _fam(out_prot))
+        if t1 != t2:
+            k = 0
+            while k < min(len(t1), len(t2)) and t1[k] == t2[k]:
+                k += 1
+            r['violations'].append({
+                'sig': 'H1-trace-depends-on-history|' + tag,
+                'what': 'the same call sent a second time to the same '
+                        'instance is seen differently by the listeners from '
+                        'event %d on: first %r, second %r' % (k, t1[k:k + 4],
+                                                              t2[k:k + 4])})
+        elif first.get('fault') != r2['summary'].get('fault'):
+            r['violations'].append({
+                'sig': 'H2-outcome-depends-on-history|' + tag,
+                'what': 'the same call ended with fault=%r the first and '
+                        'fault=%r the second time' % (first.get('fault'),
+                                             r2['summary'].get('fault'))})
+        # what the automaton says about the second call counts too
+        seen = set(v['sig'] for v in r['violations'])
+        for v in r2['violations']:
+            if v['sig'] not in seen:
+                r['violations'].append(dict(v, what='(second call) ' +
+                                                            v['what']))
+    return r
+
+
+def _fam(out_prot):
+    from sim.universe import XML_FAMILY, SOAP_FAMILY
+    return 'soap' if out_prot in SOAP_FAMILY else \
+        'xml' if out_prot in XML_FAMILY else 'dict'
+
+
+def _call_and_judge(case, tr, uni, req, mname, wsgi, server, out_prot,
+                    start=0):
+    info = {}
+    if start:
+        # judge() reads the trace of ONE call
+        whole = tr.ev
+        tr.ev = []
+        uni.ctl.calls[:] = []
+    if case['route'] == 'wsgi':
         o = call_wsgi(wsgi, req, stamp=tr.stamp)
         info['exc'] = o.exc
         info['exc_where'] = o.exc_where
@@ -277,13 +336,15 @@ def run_case(case):
         if o.exc is None and body is not None:
             is_fault = _is_fault(out_prot, body, o.status)
     else:
-        server = make_server(app)
         o = serverbase_call(server, req.body)
         info['exc'] = o.exc
         info['exc_where'] = o.exc_stage
         info['status'] = None
         is_fault = o.is_fault
-    return judge(case, tr, uni, info, is_fault, mname)
+    r = judge(case, tr, uni, info, is_fault, mname)
+    if start:
+        tr.ev = whole + tr.ev
+    return r
 
 
 def _is_fault(out_prot, body, status):
